@@ -429,12 +429,11 @@ func (pkgGen *HttpPackageGenerator) genRouter(pkg *HttpPackage, root *RouterNode
 	if pkgGen.SnakeStyleMiddleware { // unique middleware name for SnakeStyleMiddleware
 		mws := []string{}
 		hook := func(layer int, node *RouterNode) error {
-			if len(node.Children) == 0 {
-				return nil
-			}
 			groupMwName := node.GroupMiddleware
 			handlerMwName := node.HandlerMiddleware
-			if len(groupMwName) != 0 {
+			// a leaf has no group middleware function, but its handler middleware function is emitted
+			// and must be unique too: one IDL method may be bound to several routes
+			if len(node.Children) != 0 && len(groupMwName) != 0 {
 				mws, groupMwName = appendMw(mws, groupMwName)
 			}
 			if len(handlerMwName) != 0 {
